@@ -138,7 +138,27 @@ def _lib():
     return point_within_gca, extreme_gca_latitude, gca_gca_intersection
 
 
+_BUFS = {}
+
+
+def _reuse(args):
+    """Hand the library the same ndarray objects on every call, refilled in place: a result must depend on the values it is
+    given, never on the identity of the array that carries them (callers commonly reuse buffers)."""
+    out = []
+    for i, a in enumerate(args):
+        if isinstance(a, np.ndarray):
+            key = (i, a.shape)
+            if key not in _BUFS:
+                _BUFS[key] = np.empty(a.shape, dtype=float)
+            _BUFS[key][...] = a
+            out.append(_BUFS[key])
+        else:
+            out.append(a)
+    return out
+
+
 def _call(ctx, fn, sig, *args):
+    args = _reuse(args)
     try:
         with warnings.catch_warnings():
             warnings.simplefilter("ignore")
